@@ -12,8 +12,8 @@ theorem overrideAbsent_false (w : Winner) : overrideAbsent false w = w := by
 theorem overrideAbsent_true_ne_this (w : Winner) : overrideAbsent true w ≠ .this := by
   cases w <;> simp [overrideAbsent]
 
-theorem namesStepW_ofEntries (nw pw : Winner) (b o t : Option Entry) :
-    namesStepW nw pw (Change.ofEntries b o t false) =
+theorem namesStepW_ofEntries (nw pw : Winner) (b o t tc : Option Entry) :
+    namesStepW nw pw (Change.ofEntries b o t false tc) =
       (if overrideAbsent t.isNone nw = .conflict ∨ overrideAbsent t.isNone pw = .conflict then [.path] else [],
        namesOn (overrideAbsent t.isNone nw) (overrideAbsent t.isNone pw) o t) := by
   unfold namesStepW
@@ -30,8 +30,8 @@ theorem namesStepW_ofEntries (nw pw : Winner) (b o t : Option Entry) :
     | none => cases nw <;> cases pw <;> simp [namesOn, pairOf, overrideAbsent]
     | some oe => cases nw <;> cases pw <;> simp [namesOn, pairOf, pick, overrideAbsent]
 
-theorem namesStepC_ofEntries (b o t : Option Entry) :
-    namesStepC (Change.ofEntries b o t false) = namesStep b t o := by
+theorem namesStepC_ofEntries (b o t : Option Entry) (tc : Option Entry := none) :
+    namesStepC (Change.ofEntries b o t false tc) = namesStep b t o := by
   unfold namesStepC namesStep
   rw [namesStepW_ofEntries]
   simp [Change.ofEntries]
@@ -40,34 +40,35 @@ theorem contentsOnP_pairOf (w : Winner) (t o : Option Entry) :
     contentsOnP w (pairOf t) (pairOf o) = contentsOn w t o := by
   cases w <;> cases t <;> cases o <;> simp [contentsOnP, contentsOn, pairOf]
 
-theorem contentsStepC_ofEntries (b o t : Option Entry) :
-    contentsStepC (Change.ofEntries b o t false) = contentsStep b t o := by
+theorem contentsStepC_ofEntries (b o t : Option Entry) (tc : Option Entry := none) :
+    contentsStepC (Change.ofEntries b o t false tc) = contentsStep b t o := by
   unfold contentsStepC contentsStep
   by_cases h : pairOf o = pairOf b
   · simp [Change.ofEntries, h, contentsOn]
   · simp [Change.ofEntries, h, contentsOnP_pairOf]
 
-theorem execStepW_ofEntries (w0 : Winner) (b o t : Option Entry) :
-    execStepW w0 (Change.ofEntries b o t false) =
+theorem execStepW_ofEntries (w0 : Winner) (b o t tc : Option Entry) :
+    execStepW w0 (Change.ofEntries b o t false tc) =
       execOn (if w0 = .conflict then (if o.isNone then .this else .other) else w0) b t o := by
   unfold execStepW
   simp only [Change.ofEntries]
   cases w0 <;> cases b <;> cases o <;> cases t <;> simp [execOn, pairOf]
 
-theorem execStepC_ofEntries (b o t : Option Entry) :
-    execStepC (Change.ofEntries b o t false) = execStep b t o := by
+theorem execStepC_ofEntries (b o t : Option Entry) (tc : Option Entry := none) :
+    execStepC (Change.ofEntries b o t false tc) = execStep b t o := by
   unfold execStepC execStep
   rw [execStepW_ofEntries]
   simp [Change.ofEntries]
 
-theorem normCopy_ofEntries_false (b o t : Option Entry) :
-    normCopy (Change.ofEntries b o t false) = Change.ofEntries b o t false := by
+theorem normCopy_ofEntries_false (b o t : Option Entry) (tc : Option Entry := none) :
+    normCopy (Change.ofEntries b o t false tc) = Change.ofEntries b o t false tc := by
   simp [normCopy, Change.ofEntries]
 
-/-- the copy normalisation turns the element into the one of a plain add of OTHER's entry -/
-theorem normCopy_ofEntries_copied (sb st : Option Entry) (oe : Entry) :
-    normCopy (Change.ofEntries sb (some oe) st true) = Change.ofEntries none (some oe) none false := by
-  simp [normCopy, Change.ofEntries, pairOf]
+/-- the copy normalisation turns the element into the one of an add of OTHER's entry merged
+with whatever THIS has at the copy's own path (`tc`), the copy source (`sb`, `st`) forgotten -/
+theorem normCopy_ofEntries_copied (sb st tc : Option Entry) (oe : Entry) :
+    normCopy (Change.ofEntries sb (some oe) st true tc) = Change.ofEntries none (some oe) tc false := by
+  cases tc <;> simp [normCopy, Change.ofEntries, pairOf]
 
 /-! ### clean three-way decisions -/
 
